@@ -26,6 +26,16 @@ CHECKS = {
         ref="5/C09"),
 }
 
+CHECKS['C12'] = dict(
+    text="Proof: the byte-level reader composed with the writer is the identity on every database (all strings, any bytes, every int-range field; current format), "
+         "hence re-serialisation is byte-identical; files of minor 3.0-3.3 load with zero defaults for absent fields; a different major / newer minor gives error flag and nothing merged; "
+         "identifier mismatch raises the flag. Proved once per combinator (int, string, vector, pair, dependent field) and composed. Correspondence: the extracted codec reproduces "
+         "interrogate-written files byte for byte, libinterrogatedb re-writes model-written files (adversarial strings, every minor) to the bytes the model predicts, and every prefix "
+         "of valid files is loaded (error flag / nothing merged / no crash or hang).",
+    note=TB + "truncation behaviour (every prefix) is enumerated, not proved; istream semantics (operator>> for int, get()) are modelled by hand in C12/Codec.v.",
+    technique="Coq proof (codec combinators with compositional round-trip lemmas) + byte-exact differential check against libinterrogatedb + exhaustive prefix sweep",
+    ref="5/C12")
+
 PENDING = {
 }
 
